@@ -2,6 +2,7 @@ package run
 
 import (
 	"fmt"
+	"net"
 	"strings"
 
 	"github.com/relex/gotils/logger"
@@ -82,6 +83,9 @@ func ParseConfigFile(filepath string) (Config, base.LogSchema, ConfigStats, erro
 	if err = bsupport.VerifyInputConfigs(conf.Inputs, schema, "inputs"); err != nil {
 		return conf, schema, stats, err
 	}
+	if err = checkInputAddresses(conf.Inputs); err != nil {
+		return conf, schema, stats, err
+	}
 
 	var orcKeys []string
 	if conf.Orchestration.Value == nil {
@@ -144,6 +148,27 @@ func checkAndCreateSchema(conf Config) (base.LogSchema, error) {
 		return base.LogSchema{}, fmt.Errorf("schema: %w", schemaErr)
 	}
 	return schema, nil
+}
+
+// checkInputAddresses rejects two inputs listening on the same address: the second one could never be launched.
+// Port 0 (assigned by the OS) may be used any number of times.
+func checkInputAddresses(inputs []bconfig.LogInputConfigHolder) error {
+	seen := make(map[string]int, len(inputs))
+	for i, in := range inputs {
+		listener, ok := in.Value.(interface{ ListenAddress() string })
+		if !ok {
+			continue
+		}
+		addr := listener.ListenAddress()
+		if _, port, err := net.SplitHostPort(addr); err != nil || port == "" || port == "0" {
+			continue
+		}
+		if first, dup := seen[addr]; dup {
+			return fmt.Errorf("inputs[%d]: address '%s' is already used by inputs[%d]", i, addr, first)
+		}
+		seen[addr] = i
+	}
+	return nil
 }
 
 func checkMetricKeys(conf Config, schema base.LogSchema, orchestrationKeys []string) error {
